@@ -366,6 +366,37 @@ class WebSocketTemporaryRingBuffer(object):
         self.buf = self.buf[n:]
         return data
 
+    def frameSize(self):
+        """ return the size in bytes of the frame at the start of the buffer,
+        or None if the frame header has not been completely received
+        """
+        size = 2
+        if len(self.buf) < size:
+            return None
+
+        length = self.buf[1] & 0x7F
+        if length == 126:
+            size += 2
+            if len(self.buf) < size:
+                return None
+            length, = struct.unpack("!H", self.buf[2:4])
+        elif length == 127:
+            size += 8
+            if len(self.buf) < size:
+                return None
+            length, = struct.unpack("!Q", self.buf[2:10])
+
+        if self.buf[1] & 0x80:
+            size += 4
+
+        return size + length
+
+    def hasFrame(self):
+        """ return True if a complete frame has been received
+        """
+        size = self.frameSize()
+        return size is not None and len(self.buf) >= size
+
     def sendall(self, data):
         self.request.chunked = 0
         self.request.write(data)
@@ -416,7 +447,12 @@ class WebSocketTemporaryHandler(object):
     def __call__(self, data):
         self._buffer._push(data)
 
-        frame = self._readFrame()
+        # the tcp stream is not aligned with frames: a single read can
+        # contain part of a frame or more than one frame
+        while self._buffer.hasFrame():
+            self._handleFrame(self._readFrame())
+
+    def _handleFrame(self, frame):
 
         if not frame.flags.mask:
             raise Exception("client mask bit not set")
